@@ -57,4 +57,28 @@ def deadAt (w : World) (m k : Nat) : Bool :=
   | none => true
   | some s => s.expiresAt > 0 && w.now ≥ s.expiresAt
 
+/-- well-formed session record: valid coin sets, `used ≤ limit` denom by denom -/
+structure WFS (s : Session) : Prop where
+  used : validCoins s.used = true
+  limit : validCoins s.limit = true
+  le : ∀ d, amountOf s.used d ≤ amountOf s.limit d
+
+/-- every stored session record is well-formed -/
+def WF (w : World) : Prop := ∀ key s, lookupSess w.sess key = some s → WFS s
+
+/-- the meaning of one parsed allow-list entry -/
+def Entry.permits (e : Entry) (msg : Msg) : Prop :=
+  e.wildcard = true ∨
+  (e.route = msg.route ∧ e.type = msg.type ∧
+    (e.path = "" ∨ ∃ p, msg.pkgPath = some p ∧ (p = e.path ∨ p.startsWith (e.path ++ "/") = true)))
+
+/-- a message is within a grant: never an auth message or `vm/add_package`, and permitted by
+    one of the (well-formed) allow-list entries -/
+def Granted (paths : List String) (msg : Msg) : Prop :=
+  msg.route ≠ "auth" ∧ ¬ (msg.route = "vm" ∧ msg.type = "add_package") ∧
+  ∃ es, parsePaths paths = some es ∧ ∃ e ∈ es, e.permits msg
+
+/-- the transaction had an effect: some state was kept or it succeeded -/
+def Tx.tookEffect (w : World) (t : Tx) : Prop := (runTx w t).1 ≠ w ∨ (runTx w t).2 = .ok ()
+
 end GnoVerif.C16
